@@ -141,7 +141,7 @@ theorem nonsuccess_meta (r : SResp) (exc : List Nat) (h : r.success = false) :
   | raised => simp [SResp.errMeta]
 
 /-! ### completeness over the abstract OS -/
-theorem inside_append (root : Path) (segs : List Name) : inside root (root ++ segs) = true := by
+theorem inside_root_append (root : Path) (segs : List Name) : inside root (root ++ segs) = true := by
   simp [inside, List.isPrefixOf_iff_prefix]
 
 /-- a regular file whose path resolves to itself (no symlink on the way), small enough and UTF-8,
@@ -153,7 +153,7 @@ theorem complete_os (os : OS) (cfg : SCfg) (segs : List Name) (id : Nat)
     handle os cfg segs false = .file (cfg.root ++ segs) id := by
   unfold handle
   rw [hres]
-  simp only [inside_append, Bool.not_true, Bool.false_eq_true, if_false, hk, Bool.false_and]
+  simp only [inside_root_append, Bool.not_true, Bool.false_eq_true, if_false, hk, Bool.false_and]
   have h1 : ¬ (Kind.file = Kind.error) := by decide
   have h2 : ¬ (Kind.file = Kind.dir) := by decide
   rw [if_neg h1, if_neg h2]
